@@ -10,9 +10,9 @@ From HV Require Import Base.Word Spec.Evm Spec.CallSpec Gen.GenOpcodes Gen.GenCo
 Import ListNotations.
 Open Scope Z_scope.
 
-(* REFINEMENT, every script tree of any depth, every context, world and counter: unless the
-   specified run meets the one marked situation (call of an account-less address at the
-   depth limit: `clean`), the model reports at least one path and EVERY
+(* REFINEMENT, every script tree of any depth, every context, world and counter, WITHOUT
+   EXCEPTION (the last marked deviation -- a call of an account-less address at the depth
+   limit -- was repaired in sevm.py, 65d68f4): the model reports at least one path and EVERY
    reported path has the specified outcome: same result kind and return data, same world
    (code, storage, transient storage, balances) after a successful frame, same CREATE
    counter, and the same ghost log, i.e. every frame anywhere in the tree -- also inside
@@ -21,7 +21,7 @@ Open Scope Z_scope.
 Theorem C09_refines :
   forall s c w ctr r ctr' lg,
     supported s = true -> c_depth c <= MAX_DEPTH ->
-    sframe s c w ctr = (r, ctr', lg) -> clean lg = true ->
+    sframe s c w ctr = (r, ctr', lg) ->
     mframe s c (mstate_of w ctr) <> [] /\
     Forall (fun m : mres =>
               let '(f, st, lg_m) := m in
@@ -38,7 +38,7 @@ Print Assumptions C09_refines.
 (* the same for the remainder of a frame, from any buffer / last sub-context *)
 Theorem C09_refines_rest :
   forall s c w ctr ob l r ctr' lg,
-    sexec s c w ctr ob (returndata l) = (r, ctr', lg) -> clean lg = true ->
+    sexec s c w ctr ob (returndata l) = (r, ctr', lg) ->
     mexec s c (mstate_of w ctr) ob l <> [] /\
     Forall (fun m : mres => R m (r, ctr', lg)) (mexec s c (mstate_of w ctr) ob l).
 Proof. exact mexec_refines. Qed.
@@ -76,7 +76,7 @@ Print Assumptions C09_transfer_conserves.
    duplicate-free address set covering the changed entries is unchanged. *)
 Theorem C09_conservation :
   forall s c w ctr r ctr' lg ret st lg',
-    c_depth c <= MAX_DEPTH -> sframe s c w ctr = (r, ctr', lg) -> clean lg = true ->
+    c_depth c <= MAX_DEPTH -> sframe s c w ctr = (r, ctr', lg) ->
     In (FOk ret, st, lg') (mframe s c (mstate_of w ctr)) ->
     exists delta, w_balance (world_of st) = delta ++ w_balance w /\
       forall addrs, NoDup addrs -> (forall a, In a (map fst delta) -> In a addrs) ->
@@ -127,8 +127,8 @@ Theorem C09_evm_create_atomic :
 Proof. exact evm_do_create_atomic. Qed.
 Print Assumptions C09_evm_create_atomic.
 
-(* ---- the three situations repaired in sevm.py, at full strength (they are also covered by
-   C09_refines: `clean` no longer excludes them) ---- *)
+(* ---- the four situations repaired in sevm.py, at full strength (they are also covered by
+   C09_refines, which no longer excludes anything) ---- *)
 
 (* fea28af: a value-bearing CALL inside a static frame halts the frame -- in the specification
    and in the model, whatever the target, the callee and the rest of the frame; nothing else
@@ -143,10 +143,11 @@ Print Assumptions C09_static_value_call_halts.
 
 (* 91e78e2: CALLCODE with value > balance: the callee never runs and no succeeding path is
    reported -- the paths are exactly those of the rest of the frame continued with status
-   word 0, empty return data and the untouched state *)
+   word 0, empty return data and the untouched state (below the depth limit; at the limit the
+   call fails for that reason as well: C09_depth_limit_call_fails) *)
 Theorem C09_callcode_insufficient_fails :
   forall to v rsz callee rest c st ob l,
-    0 <= balance_of st (c_this c) < v ->
+    0 <= balance_of st (c_this c) < v -> c_depth c + 1 <= MAX_DEPTH ->
     mexec (SCall KCallcode to v rsz callee rest) c st ob l =
     mexec rest c st (m_after_call ob 0 (Some (false, true, [])) rsz []) (Some (false, true, [])).
 Proof. exact callcode_insufficient_fails. Qed.
@@ -161,17 +162,40 @@ Theorem C09_retcopy_oob_halts :
 Proof. exact retcopy_oob_halts. Qed.
 Print Assumptions C09_retcopy_oob_halts.
 
-(* ---- the full statement (without the `clean` proviso) is FALSE of the faithful model ---- *)
+(* 65d68f4: a call -- of any kind, with any value -- of an address WITHOUT ACCOUNT executed at
+   the call depth limit fails like any other call: the specification goes on with status word
+   0 and empty return data, and every path the model reports is a path of the rest of the
+   frame continued with status word 0, RETURNDATASIZE 0, an untouched return area and the
+   untouched state (nothing is sent) *)
+Theorem C09_depth_limit_call_fails :
+  forall kd to v rsz callee rest c w ctr ob l,
+    has_account w (to mod ADDR_MOD) = false -> MAX_DEPTH < c_depth c + 1 ->
+    is_kcall kd && c_static c && negb ((if carries_value kd then v else 0) =? 0) = false ->
+    sexec (SCall kd to v rsz callee rest) c w ctr ob (returndata l)
+      = sexec rest c w ctr (after_call ob 0 [] rsz []) [] /\
+    forall m, In m (mexec (SCall kd to v rsz callee rest) c (mstate_of w ctr) ob l) ->
+      exists l', returndata l' = [] /\
+        In m (mexec rest c (mstate_of w ctr) (m_after_call ob 0 l' rsz []) l').
+Proof. exact depth_limit_nocode_fails. Qed.
+Print Assumptions C09_depth_limit_call_fails.
 
-(* a call of an address without account at the depth limit succeeds (and transfers) *)
-Theorem C09_depth_nocode_refuted :
-  exists s c w ctr, supported s = true /\ c_depth c <= MAX_DEPTH /\
-    ~ Forall (fun m => R m (sframe s c w ctr)) (mframe s c (mstate_of w ctr)).
-Proof. exact depth_nocode_refuted. Qed.
-Print Assumptions C09_depth_nocode_refuted.
+(* ... and concretely, the former counterexample (a frame at depth 1024 calling an address
+   without account) now meets its specification: one path, the specified result *)
+Example C09_depth_limit_instance :
+  let s := SCall KCall 12288 0 0 (SEnd EStop) (SEnd (EReturn 7)) in
+  let c := mkCtx 4096 77 77 0 [0] false 1024 in
+  let w := mkWorld [(4096, [0]); (8192, [0])] [] [] [(4096, 0)] in
+  length (mframe s c (mstate_of w 0)) = 1%nat /\
+  Forall (fun m => R m (sframe s c w 0)) (mframe s c (mstate_of w 0)) /\
+  exists ret w', fst (fst (sframe s c w 0)) = SOk ret w' /\ nth 63 ret 1 = 0.
+Proof.
+  vm_compute. split; [reflexivity|]. split.
+  - repeat constructor.
+  - eexists _, _. split; reflexivity.
+Qed.
 
 (* non-vacuity: a three-level tree (CALL -> DELEGATECALL that reverts after a store, then a
-   CREATE whose init code stores and returns) is clean, the model reports exactly the
+   CREATE whose init code stores and returns): the model reports exactly the
    specified result, the reverted store is gone and the successful ones persist *)
 Example C09_nonvacuous :
   let callee := SSstore 1 11 (SCall KDelegate 12288 0 32 (SSstore 2 22 (SEnd (ERevert 9)))
@@ -181,14 +205,14 @@ Example C09_nonvacuous :
   let c := mkCtx 4096 77 78 0 [0] false 1 in
   let w := mkWorld [(4096, [0]); (8192, [0]); (12288, [0])] [] [] [(4096, 10)] in
   let '(r, ctr', lg) := sframe s c w 0 in
-  clean lg = true /\ length lg = 8%nat /\
+  length lg = 8%nat /\
   (exists ret w', r = SOk ret w' /\
      sload_of (w_storage w') 8192 1 = 11 /\ sload_of (w_storage w') 8192 2 = 0 /\
      sload_of (w_storage w') (CREATE_BASE + 1) 0 = 7 /\
      get_balance w' 4096 = 6 /\ get_balance w' 8192 = 3 /\ get_balance w' (CREATE_BASE + 1) = 1 /\
      length (mframe s c (mstate_of w 0)) = 1%nat).
 Proof.
-  vm_compute. split; [reflexivity|]. split; [reflexivity|].
+  vm_compute. split; [reflexivity|].
   eexists _, _. split; [reflexivity|]. repeat split; reflexivity.
 Qed.
 
@@ -216,7 +240,7 @@ Print Assumptions C09_paths_isolated.
 Theorem C09_explored_refines :
   forall feas s c w ctr r ctr' lg,
     supported s = true -> c_depth c <= MAX_DEPTH ->
-    sframe s c w ctr = (r, ctr', lg) -> clean lg = true ->
+    sframe s c w ctr = (r, ctr', lg) ->
     explored feas s c w ctr <> [] /\
     Forall (fun m : mres =>
               let '(f, st, lg_m) := m in
